@@ -17,6 +17,14 @@ Section Open.
     else if fs rel then Ok (Some rel)
     else if fs abs then Ok (Some abs) else Err.
 
+  (* vmdk.open_parent: the file name of parentFileNameHint in the child's own directory, else in the directory named by
+     the last directory of the hint next to the child's directory; the chosen file is then opened (a missing file raises,
+     wrapped into IOError).  Called iff the descriptor's parentCID is not ffffffff. *)
+  Definition vmdk_open_parent (has_parent : bool) (same up : P) : res (option P) :=
+    if negb has_parent then Ok None
+    else if fs same then Ok (Some same)
+    else if fs up then Ok (Some up) else Err.
+
   (* HDD._open_image for an absolute image path: the path itself, else same HDD directory, else
      sibling .hdd directory, else .pvm directory two levels up; the last candidate is opened whether
      or not it exists. Relative paths are always relative to the HDD root. *)
